@@ -433,6 +433,26 @@ def deep_log(ctx: Ctx, entry_msg, null_msg, rounds: int) -> None:
             ok = False
         return ok, state["nxt"]
 
+    # ... on a log at (and past) its full depth: the real read-through loop, from a fresh view and from a view holding only a stale entry near the bottom
+    for n0 in (DEPTH - 1, DEPTH, DEPTH + 3):
+        for stale in (False, True):
+            f, log, hist, nxt = FaultLog(_Tcs()), [], [], 1
+            for _ in range(n0):
+                new_entry(log, nxt)
+                nxt += 1
+            hist.append(("controller-log-filled", min(n0, DEPTH)))
+            if stale:
+                f.handle_msg(entry_msg("RP", len(log) - 2, log[-2]))
+                hist.append(("RP", len(log) - 2, log[-2]))
+                for _ in range(2):          # two entries logged, their announcements lost
+                    new_entry(log, nxt)
+                    nxt += 1
+                    hist.append(("new-entry", "announcement lost"))
+            ok, nxt = run_get(f, log, hist, nxt)
+            ctx.case(("get-faultlog-deep", n0, stale), True, "get_faultlog:full-depth")
+            if ok:
+                check_bound(f, hist)
+                check_equal(f, log, hist, "deep-log:get_faultlog-mismatch", "after get_faultlog() has read a full-depth log through, the view differs from the controller's log")
     for trial in range(rounds * 2):
         f, log, hist, nxt = FaultLog(_Tcs()), [], [], 1
         for _ in range(rng.randint(2, 9)):
